@@ -25,6 +25,10 @@ def _spec(name):
 
 def _fn(world, cq, name):
     r = world.method(cq, name)
+    if r[0].mod in (HID, SER):
+        from ..drv import expand_method
+        return r[0], expand_method(world, world.cls(cq), r[2],
+                                   aliases="params")
     return r[0], r[2]
 
 
@@ -111,6 +115,9 @@ def check(run, repo, world):
 
     _check_stat(run, repo, world, folder)
     _check_own_answer(run, repo, world, folder)
+    _check_wait_iff_query(run, repo, world)
+    _check_request_reply(run, repo, world)
+    _check_zero_answer(run, repo, world)
     _check_flush(run, repo, world)
 
 
@@ -653,3 +660,123 @@ def _check_flush(run, repo, world):
                 (q + ".qsize()") in txt or ("not %s.empty()" % q) in txt,
                 "the flush does not look at %s, which the send path reads"
                 % q, where(mod, fn))
+
+
+def _cond_worlds(cfg):
+    from ..cfg import forward_worlds
+    from ..seq import cond_edge_transfer, kill_conds_on_assign
+    return forward_worlds(cfg, kill_conds_on_assign, cond_edge_transfer())
+
+
+def _check_wait_iff_query(run, repo, world):
+    """The answer wait is reached for every command that expects an answer:
+    the only condition on the command that may guard it is its `response`
+    / `is_query` attribute."""
+    run.rule("R-WAIT-IFF-QUERY", "the answer wait is guarded by nothing but "
+             "`command.response` / `command.is_query`")
+    mod = repo.mod(HID)
+    for cq, waits in ((HID + ".hasseb", ("self._response_available.wait()",)),
+                      (HID + ".tridonic", ("event.wait()",))):
+        owner, fn = _fn(world, cq, "_send_raw")
+        Q = cq + "._send_raw"
+        cfg = CFG(fn, may_raise=suspension_may_raise, name=Q)
+        W = _cond_worlds(cfg)
+        p = fn.args.args[1].arg
+        sites = [n for n in cfg.reachable if n.ast is not None and n.kind in (
+            "stmt", "test") and any(w in unparse(n.ast, 400) for w in waits)]
+        if not sites:
+            raise AnalysisError("%s: answer wait not found" % Q)
+        for n in sites:
+            bad = set()
+            for w in W.at(n):
+                for f in w:
+                    if f[0] == "cond" and (p + ".") in f[1] and f[1] not in (
+                            p + ".response", p + ".is_query",
+                            p + ".response is None",
+                            p + ".response is not None"):
+                        bad.add((f[1], f[2]))
+            run.ob("R-WAIT-IFF-QUERY", Q, not bad,
+                   "the answer wait is only reached when %s: a query that "
+                   "does not satisfy this returns no answer object although "
+                   "one was expected" % sorted(bad), where(mod, n),
+                   sample={"rule": "R-WAIT-IFF-QUERY", "function": Q})
+
+
+def _check_request_reply(run, repo, world):
+    """daliserver: every request written to the socket is followed by the
+    read of its 4-byte reply before the next request and before returning;
+    an unread reply would be taken for the answer to the next command."""
+    run.rule("R-REQ-REPLY", "daliserver: send / recv strictly alternate on "
+             "every path (no reply left unread)")
+    from ..cfg import forward_worlds, explicit_raise_only
+    owner, fn = _fn(world, DS + ".DaliServer", "send")
+    Q = DS + ".DaliServer.send"
+    mod = repo.mod(DS)
+    cfg = CFG(fn, may_raise=explicit_raise_only, name=Q)
+
+    def ev(node):
+        out = []
+        if node.ast is None or node.kind not in ("stmt", "test"):
+            return out
+        for c in _walk_no_nested(node.ast):
+            if isinstance(c, ast.Call) and isinstance(
+                    c.func, ast.Attribute) and isinstance(
+                        c.func.value, ast.Name) and c.func.value.id == "s":
+                if c.func.attr in ("send", "sendall"):
+                    out.append("send")
+                elif c.func.attr == "recv":
+                    out.append("recv")
+        return out
+
+    def tr(node, st):
+        for e in ev(node):
+            if e == "send":
+                st = (st | {"double"}) if "pending" in st else st
+                st = st | {"pending"}
+            else:
+                st = st - {"pending"}
+        return st
+    from ..seq import cond_edge_transfer
+    W = forward_worlds(cfg, tr, cond_edge_transfer())
+    n_send = sum(1 for n in cfg.reachable if "send" in ev(n))
+    run.floor("daliserver socket sends", n_send, 1)
+    bad = [w for w in W.at(cfg.exit) if "pending" in w or "double" in w]
+    run.ob("R-REQ-REPLY", Q, not bad,
+           "a path returns with a request whose reply was not read (or two "
+           "requests are written before one reply is read): on a persistent "
+           "connection the next command receives this command's reply",
+           where(mod, fn), sample={"rule": "R-REQ-REPLY", "sends": n_send})
+
+
+def _check_zero_answer(run, repo, world):
+    """An answer byte of 0 is an answer: the construction of
+    BackwardFrame(x) from a received integer must not be conditional on the
+    truth of x."""
+    run.rule("R-ZERO-ANSWER", "a received answer of value 0 still becomes a "
+             "backward frame (no truthiness test on the answer byte)")
+    n = 0
+    for cq in (SER + ".DriverLubaRs232", SER + ".DriverSCIRS232"):
+        owner, fn = _fn(world, cq, "send")
+        Q = cq + ".send"
+        mod = repo.mod(SER)
+        cfg = CFG(fn, may_raise=suspension_may_raise, name=Q)
+        W = _cond_worlds(cfg)
+        for nd in cfg.reachable:
+            if nd.ast is None or nd.kind != "stmt":
+                continue
+            for c in _walk_no_nested(nd.ast):
+                if isinstance(c, ast.Call) and unparse(c.func).endswith(
+                        "BackwardFrame") and len(c.args) == 1 and isinstance(
+                            c.args[0], ast.Name):
+                    x = c.args[0].id
+                    n += 1
+                    ws = W.at(nd)
+                    forced = bool(ws) and all(("cond", x, True) in w
+                                              for w in ws)
+                    run.ob("R-ZERO-ANSWER", "%s#BackwardFrame(%s)" % (Q, x),
+                           not forced,
+                           "BackwardFrame(%s) is only built when `%s` is "
+                           "truthy: an answer of value 0 is dropped and the "
+                           "caller is told nothing answered" % (x, x),
+                           where(mod, nd))
+    run.floor("answer-frame constructions in serial send paths", n, 2)
